@@ -64,6 +64,8 @@ def configs(tier):
     for N in eqN:
         for nb in (1, 2, 3):
             out.append(("equiv", "raw", N, nb, False, False))
+    # the bin-index kernel over IEEE floats (reduced width: half precision quick, single thorough)
+    out.append(("fpequiv", "f16" if tier == "quick" else "f32", 1, 2, False, False))
     return out
 
 
@@ -78,6 +80,8 @@ def harness(cx, cfg):
     engine, mode, N, nb, hasmin, hasmax = cfg
     if engine == "equiv":
         return harness_equiv(cx, cfg)
+    if engine == "fpequiv":
+        return harness_fpequiv(cx, cfg)
     L = loader.Loader(stubs=_stubs(engine))
     m = L.get("esutil.stat.util")
     assert m.have_chist == (engine == "c")
@@ -178,6 +182,38 @@ def harness_equiv(cx, cfg):
                 cx.check_eq("C and Python engines: rev identical", rp[k], rc[k])
 
 
+def harness_fpequiv(cx, cfg):
+    """the same comparison with the datum, the minimum and the bin size as IEEE floating-point variables
+    (z3 FloatingPoint sort of reduced width -- full double width does not finish): the bin a datum falls in
+    must be the same in both engines and equal to trunc((x - min) / binsize) evaluated in that arithmetic"""
+    import z3
+    _, width, N, nb, _, _ = cfg
+    sort = {"f16": z3.Float16(), "f32": z3.Float32()}[width]
+    from vf import cmodels
+    L = loader.Loader()
+    m = L.get("esutil.stat.util")
+    x = cx.fp("x0", -64.0, 64.0, sort=sort)
+    dmin = cx.fp("dmin", -64.0, 64.0, sort=sort)
+    bs = cx.fp("binsize", 2.0 ** -6, 64.0, sort=sort)
+    q = (x - dmin) / bs
+    cx.assume(symx.sym_and(q > -1000.0, q < 1000.0))        # conversion to an integer defined
+    data = symnp.array([x])
+    s = symnp.array([0], dtype="i8")
+    hp = symnp.zeros(nb, dtype="i8")
+    hc = symnp.zeros(nb, dtype="i8")
+    rp = symnp.zeros(s.size + nb + 1, dtype="i8")
+    rc = symnp.zeros(s.size + nb + 1, dtype="i8")
+    m._dohist(data, dmin, s, bs, hp, revind=rp)
+    cmodels.chist_module().chist(data, dmin, s, bs, hc, rc)
+    want = symx.to_int_trunc(q)
+    for k in range(nb):
+        cx.check_eq("IEEE arithmetic (%s): C and Python engines count the datum in the same bin" % width, hp[k], hc[k])
+        cx.check("IEEE arithmetic (%s): the datum is counted in bin trunc((x - min) / binsize)" % width,
+                 symx.sym_and(hc[k] == symx.sym_ite(want == k, 1, 0)))
+    for k in range(rp.size):
+        cx.check_eq("IEEE arithmetic (%s): C and Python engines give the same reverse indices" % width, rp[k], rc[k])
+
+
 # ----------------------------------------------------------------------------
 # conformance: the shim-executed source vs the real library on concrete inputs
 
@@ -264,6 +300,8 @@ def replay(cand):
     mdl = cand["model"]
     if engine == "equiv":
         return replay_equiv(cand)
+    if engine == "fpequiv":
+        return replay_fpequiv(cand)
     x = np.array([model_float(mdl["x%d" % i]) for i in range(N)], dtype="f8")
     kw = {}
     if hasmin:
@@ -343,9 +381,49 @@ def replay_equiv(cand):
                                None if rp is None else rp.tolist(), None if rc is None else rc.tolist())}
     return {"reproduced": False, "what": "engines agree", "key": None}
 
+def replay_fpequiv(cand):
+    """the solver's counterexample lives in a narrower float format; in doubles the same effect needs a bin
+    size whose reciprocal is inexact and data on bin edges: the model's values first, then that family"""
+    import numpy as np
+    import esutil.stat.util as su
+    from esutil.stat import _chist
+    from vf.symx import model_float
+    mdl = cand["model"] or {}
+    trials = []
+    try:
+        trials.append((model_float(mdl["x0"]), model_float(mdl["dmin"]), model_float(mdl["binsize"])))
+    except Exception:
+        pass
+    for bs in (0.1, 0.3, 1.0 / 3.0, 0.7, 0.01, 1.1, 0.05, 1e-3, 3.3, 0.9, 1.7):
+        for dmin in (0.0, 0.1, -1.3, 2.5):
+            for k in range(0, 60):
+                trials.append((dmin + k * bs, dmin, bs))
+                trials.append((np.nextafter(dmin + k * bs, -np.inf), dmin, bs))
+                trials.append(((k * bs) + dmin, dmin, bs))
+    nb = 64
+    for x0, dmin, bs in trials:
+        x = np.array([x0], dtype="f8")
+        s = np.array([0], dtype="i8")
+        hp = np.zeros(nb, dtype="i8")
+        hc = np.zeros(nb, dtype="i8")
+        rp = np.zeros(1 + nb + 1, dtype="i8")
+        rc = np.zeros(1 + nb + 1, dtype="i8")
+        su._dohist(x, dmin, s, bs, hp, revind=rp)
+        _chist.chist(x, dmin, s, bs, hc, rc)
+        q = (x0 - dmin) / bs
+        want = np.zeros(nb, dtype="i8")
+        if 0 <= int(q) < nb:            # conversion truncates toward zero, as both engines do
+            want[int(q)] = 1
+        if hc.tolist() != want.tolist() or hp.tolist() != hc.tolist() or rp.tolist() != rc.tolist():
+            return {"reproduced": True, "key": "ieee:bin-index",
+                    "what": "datum %r, min %r, binsize %r: C engine counts it in bin %r, Python engine in bin %r, trunc((x-min)/binsize) = %r"
+                            % (x0, dmin, bs, np.flatnonzero(hc).tolist(), np.flatnonzero(hp).tolist(), int(q))}
+    return {"reproduced": False, "what": "engines agree with trunc((x-min)/binsize) on the model and on the bin-edge family", "key": None}
+
+
 MANIFEST_ENTRY = {
     "engine": "symx+cast",
     "technique": "bounded symbolic execution of the Python source (symx/z3) and of the C engine from clang's AST (cast/z3); per-path SMT queries against the definitional bin membership; C vs Python equivalence as terms; counterexamples replayed on a scratch build",
     "text": "For every array length up to the bound and every real-valued data/min/max/binsize (all solver variables) the counts, the reverse-index slices, their order and the bin count are proved equal to the definition on every feasible path of Binner/_dohist and of PyCHist_chist, and both engines are proved to produce identical arrays on arbitrary raw arguments. Bounded in N and nbin only; exact in the values.",
-    "note": "floats as reals; N<=3 (quick) / 5 (thorough), nbin<=3/4; vf.symnp models NumPy (conformance pass against the real library on 80+ traces per run); numpy C-API accessors are intrinsics",
+    "note": "floats as reals, except the bin-index kernel (one datum, both engines) which is also decided over IEEE floating point of reduced width (half precision quick, single thorough; double width does not finish in z3); N<=3 (quick) / 5 (thorough), nbin<=3/4; vf.symnp models NumPy (conformance pass against the real library on 80+ traces per run); numpy C-API accessors are intrinsics",
 }
